@@ -646,6 +646,8 @@ func checkC11(res *Result) {
 	}
 	res.Count("loops without post statement", nLoops, 4)
 
+	res.Rule("C11-R5", "iterators decoded from a request body are walkable: every decoder of a non-functional property sets parent and myIdx of every element it produces (Next/Prev dereference parent; shared with C18-R1)")
+	checkDecodedContainers(res, "C11-R5", "Next()/Prev() of such an element call parent.Len() on a nil interface or step from the wrong index: a panic or an endless walk reachable from a request body")
 	res.Assumptions = append(res.Assumptions,
 		"a vocabulary getter may return nil (it returns the struct field); At(i) within bounds returns a non-nil element",
 		"methods of application interfaces (Database, Transport, …) return non-nil values when they return a nil error",
